@@ -310,7 +310,7 @@ Qed.
 Definition holds (r : row) (f : folder) : Prop :=
   r_id r = f_reload_id f /\ r_name r = Some (f_name f) /\ r_tag r = f_tag f /\
   r_complete r = Some (f_completed f) /\ r_grid r = false /\
-  r_model r = Some (f_model f) /\ r_info r = f_info f /\ r_samples r = f_samples f /\
+  r_model r = Some (f_model f) /\ r_info r = f_info_held f /\ r_samples r = f_samples f /\
   r_instance r = option_map s_inst (best_of (f_samples f)) /\
   r_maxll r = option_map s_ll (best_of (f_samples f)) /\
   r_jsons r = f_jsons f.
@@ -535,4 +535,87 @@ Proof.
   unfold children. rewrite filter_In. split; intros [A B]; (split; [exact A|]).
   - destruct (r_parent r) as [p|]; simpl in B; [|discriminate]. apply String.eqb_eq in B. subst. reflexivity.
   - rewrite B. simpl. apply String.eqb_refl.
+Qed.
+
+(* ---------- id = folder name, info: what `holds` leaves to the persistence of search / model / info ---------- *)
+
+(* the identifier recomputed from the files is the one the fit was written under, and (fits that are
+   not grid-search cells) the folder is named by it *)
+Definition written_under_folder_name (f : folder) : Prop :=
+  reload_faithful f = true /\ folder_name f = f_written_id f.
+
+Theorem id_is_folder_name (classes : list search_class) (uf co : bool) (dir : list folder) :
+  wf classes uf co dir ->
+  exists db, scrape classes uf co dir [] = Loaded db /\
+    forall f, In f (outputs co dir) -> written_under_folder_name f ->
+      exists r, In r db /\ holds r f /\ r_id r = folder_name f /\
+                forall r', In r' db -> r_id r' = folder_name f -> r' = r.
+Proof.
+  intro H. destruct (lossless classes uf co dir H) as (db & Hs & Hnd & Hall & _).
+  exists db. split; [exact Hs|]. intros f Hf [Hr Hn].
+  destruct (Hall f Hf) as (r & Hr' & Hh). exists r. split; [exact Hr'|]. split; [exact Hh|].
+  assert (E : r_id r = folder_name f).
+  { destruct Hh as (Hid & _). rewrite Hid, Hn. unfold reload_faithful in Hr. apply String.eqb_eq. exact Hr. }
+  split; [exact E|]. intros r' Hin E'. eapply NoDup_map_inj_in; try eassumption. congruence.
+Qed.
+
+(* info: the row holds what the info table can hold; that is the info of the directory when every
+   value is a string *)
+Theorem info_held (classes : list search_class) (uf co : bool) (dir : list folder) :
+  wf classes uf co dir ->
+  exists db, scrape classes uf co dir [] = Loaded db /\
+    forall f, In f (outputs co dir) -> f_info_held f = f_info f ->
+      exists r, In r db /\ r_id r = f_reload_id f /\ r_info r = f_info f.
+Proof.
+  intro H. destruct (lossless classes uf co dir H) as (db & Hs & _ & Hall & _).
+  exists db. split; [exact Hs|]. intros f Hf E. destruct (Hall f Hf) as (r & Hr & Hh).
+  exists r. split; [exact Hr|]. destruct Hh as (Hid & _ & _ & _ & _ & _ & Hi & _).
+  split; [exact Hid | rewrite Hi; exact E].
+Qed.
+
+(* ---------- loading into a database that already holds fits ---------- *)
+
+Definition wf0 (classes : list search_class) (uf co : bool) (dir : list folder) (db0 : list row) : Prop :=
+  (forall f, In f (outputs co dir) -> loadable classes f) /\
+  NoDup (map r_id db0 ++ flat_map ids_of (outputs co dir) ++ map (gs_id uf) (grids co dir)).
+
+Theorem scrape_closed_db0 (classes : list search_class) (uf co : bool) (dir : list folder) (db0 : list row) :
+  wf0 classes uf co dir db0 ->
+  scrape classes uf co dir db0
+  = Loaded (fold_left (grid_step uf co dir) (grids co dir) (db0 ++ flat_map rows_of (outputs co dir))).
+Proof.
+  intros [Hl Hn]. unfold scrape.
+  rewrite (add_fits_closed classes (outputs co dir) db0).
+  - apply add_grids_closed. rewrite map_app, flat_map_ids, <- app_assoc. exact Hn.
+  - exact Hl.
+  - rewrite app_assoc in Hn. eapply NoDup_app_l. exact Hn.
+Qed.
+
+(* the fits loaded earlier stay exactly as they were, and everything `lossless` promises for the new
+   directory holds as well *)
+Theorem second_load (classes : list search_class) (uf co : bool) (dir : list folder) (db0 : list row) :
+  wf0 classes uf co dir db0 ->
+  exists db, scrape classes uf co dir db0 = Loaded db /\
+    (forall r, In r db0 -> In r db) /\
+    (forall f, In f (outputs co dir) -> exists r, In r db /\ holds r f) /\
+    NoDup (map r_id db).
+Proof.
+  intros H. pose proof H as [Hl Hn].
+  assert (Hgc : forall g g', In g (grids co dir) -> In g' (grids co dir) -> ~ In (gs_id uf g) (cell_ids co dir g')).
+  { intros g g' Hg Hg' Hin. apply cell_id_is_fit_id in Hin. apply NoDup_app_r in Hn.
+    apply (NoDup_app_disj _ _ Hn _ Hin). apply in_map. exact Hg. }
+  exists (fold_left (grid_step uf co dir) (grids co dir) (db0 ++ flat_map rows_of (outputs co dir))).
+  split; [apply scrape_closed_db0; exact H|].
+  rewrite grid_fold_closed by exact Hgc. split; [|split].
+  - intros r Hr. apply in_or_app. left. rewrite map_app. apply in_or_app. left.
+    replace r with (reparent uf co dir (grids co dir) r) at 1; [apply in_map; exact Hr|].
+    unfold reparent, final_parent. rewrite fold_parent_none_absent; [apply with_parent_same|].
+    intros g Hg Hin. apply cell_id_is_fit_id in Hin.
+    apply (NoDup_app_disj _ _ Hn (r_id r)); [apply in_map; exact Hr | apply in_or_app; left; exact Hin].
+  - intros f Hf. exists (reparent uf co dir (grids co dir) (fit_row f)). split; [|apply reparent_fit_holds].
+    apply in_or_app. left. apply in_map. apply in_or_app. right.
+    apply in_flat_map. exists f. split; [exact Hf | left; reflexivity].
+  - rewrite map_app, !map_map.
+    rewrite (map_ext (fun x => r_id (reparent uf co dir (grids co dir) x)) r_id) by reflexivity.
+    rewrite map_app, flat_map_ids, <- app_assoc. exact Hn.
 Qed.
